@@ -257,7 +257,9 @@ def _run(spec, rec, qv, count=True):
         raise Violation("valid_before/%s" % method, "PCBO without constraints reports an invalid solution")
 
     name = "add_constraint_" + method
-    lib(getattr(H, name), *objs, what=name, lam=lam)
+    # lam as a python number, numpy scalar or Fraction (drawn from the case's pad so that no new spec field is needed)
+    lam_arg = gen.wrap_number(lam, gen.CTYPES[spec.get("pad", 0) % len(gen.CTYPES)])
+    lib(getattr(H, name), *objs, what=name, lam=lam_arg)
 
     after = ref.canon(dict(H), False)
     F = ref.poly_add(after, before, -1)
